@@ -156,6 +156,8 @@ def main():
     ap.add_argument("--files", default=""); ap.add_argument("--jobs", type=int, default=3)
     ap.add_argument("--out", default=os.path.join(VERIF, "mutation", "results.jsonl"))
     ap.add_argument("--list", action="store_true")
+    ap.add_argument("--retest", default="", help="comma-separated verdicts: re-run the mutants of --from that got one of them (e.g. SURVIVOR,model_divergence_only)")
+    ap.add_argument("--from", dest="src", default=os.path.join(VERIF, "mutation", "results.jsonl"))
     a = ap.parse_args()
     files = [f for f in (a.files.split(",") if a.files else sorted(FILE_PROPS)) if f in FILE_PROPS]
     allc = []
@@ -164,6 +166,30 @@ def main():
     if a.list:
         for c in allc: print(c["file"], c["line"], c["op"], "|", c["before"], "=>", c["after"])
         print(len(allc), "candidates"); return
+    if a.retest:
+        want = set(a.retest.split(","))
+        ids = {}
+        for l in open(a.src):
+            try:
+                r = json.loads(l)
+            except Exception:
+                continue
+            if r.get("verdict") in want: ids[r["id"]] = r
+        byid = {hashlib.sha1(("%s:%d:%s:%s" % (c["file"], c["line"], c["op"], c["after"])).encode()).hexdigest()[:10]: c for c in allc}
+        picks = [byid[i] for i in ids if i in byid]
+        print("retesting %d of %d mutants" % (len(picks), len(ids)), flush=True)
+        os.makedirs(os.path.dirname(a.out), exist_ok=True)
+        import shutil
+        shutil.copy(os.path.join(VERIF, "lean", ".lake", "build", "bin", "popsdriver"), globals()["DRIVER_COPY"] + ".retest")
+        globals()["DRIVER_COPY"] = globals()["DRIVER_COPY"] + ".retest"
+        from concurrent.futures import as_completed
+        with ThreadPoolExecutor(max_workers=a.jobs) as ex:
+            futs = [ex.submit(run_mutant, mu, 1000 + i, lambda f: FILE_PROPS[f]) for i, mu in enumerate(picks)]
+            for f in as_completed(futs):
+                rec = f.result(); rec["retest_of"] = ids[rec["id"]]["verdict"]
+                with open(a.out, "a") as fh: fh.write(json.dumps(rec) + "\n")
+                print(rec["verdict"], "(was %s)" % rec["retest_of"], rec["file"], rec["line"], rec["op"], flush=True)
+        return
     rnd = random.Random(a.seed)
     # stratify by file: equal expected share per file (small files are not drowned by host_pool.hpp)
     byfile = {}
@@ -185,7 +211,7 @@ def main():
     os.makedirs(os.path.dirname(a.out), exist_ok=True)
     import shutil
     os.makedirs(os.path.dirname(DRIVER_COPY), exist_ok=True)
-    shutil.copy(os.path.join(VERIF, "lean", ".lake", "build", "bin", "popsdriver"), DRIVER_COPY)
+    shutil.copy(os.path.join(VERIF, "lean", ".lake", "build", "bin", "popsdriver"), globals()["DRIVER_COPY"])
     tc = lambda f: FILE_PROPS[f]
     from concurrent.futures import as_completed
     with ThreadPoolExecutor(max_workers=a.jobs) as ex:
